@@ -398,6 +398,59 @@ fn transports(run: &mut Run) {
             }
         }
     }
+    // clients that do not read what they asked for: replies far bigger than the socket buffers,
+    // then an abort (reset), an orderly close, or a late read; the session must still be released
+    {
+        let mut a = Session::new();
+        a.exec(&node, &format!("auth {} {}", USER, PWD));
+        a.exec(&node, "use-db t tok");
+        a.exec(&node, &format!("set big {}", "x".repeat(3_000_000)));
+        let _ = a.disconnect(&node);
+        let panics_before = crate::world::PANIC_COUNT.load(std::sync::atomic::Ordering::SeqCst);
+        for ending in ["reset at once", "reset after 30 ms", "close without reading", "read late, then close"] {
+            for gets in [1usize, 3] {
+                n += 1;
+                let before = (count("t"), count("u"));
+                let mut c = tcp.connect();
+                let mut req = String::from("use-db t tok\n");
+                for _ in 0..gets {
+                    req.push_str("get big\n");
+                }
+                c.send_raw(req.as_bytes());
+                match ending {
+                    "reset at once" => c.reset(),
+                    "reset after 30 ms" => {
+                        std::thread::sleep(std::time::Duration::from_millis(30));
+                        c.reset()
+                    }
+                    "close without reading" => {
+                        std::thread::sleep(std::time::Duration::from_millis(30));
+                        drop(c)
+                    }
+                    _ => {
+                        std::thread::sleep(std::time::Duration::from_millis(60));
+                        let _ = c.close_and_wait();
+                    }
+                }
+                // the server notices within its poll interval; allow it some time
+                let t0 = std::time::Instant::now();
+                while (count("t"), count("u")) != before && t0.elapsed() < std::time::Duration::from_secs(4) {
+                    std::thread::sleep(std::time::Duration::from_millis(5));
+                }
+                let after = (count("t"), count("u"));
+                let panics = crate::world::PANIC_COUNT.load(std::sync::atomic::Ordering::SeqCst);
+                let shape = format!("tcp client that does not read {} big replies: {}", gets, ending);
+                if panics != panics_before {
+                    let log = crate::world::PANIC_LOG.lock().unwrap().last().cloned().unwrap_or_default();
+                    run.violate(Violation { clause: "disconnect-failed".into(), shape: shape.clone(), detail: format!("the connection's handler thread panicked: {}", log), replay: json!({"engine":"transport","transport":"tcp","ending":ending,"gets":gets}) });
+                    break;
+                }
+                if after != before {
+                    run.violate(Violation { clause: "connection-count-not-restored".into(), shape, detail: format!("before {:?}, 4 s after the connection ended {:?}", before, after), replay: json!({"engine":"transport","transport":"tcp","ending":ending,"gets":gets}) });
+                }
+            }
+        }
+    }
     run.cov("transport_sessions", json!(n));
     run.cov_add("states", n);
     run.cov_add("transitions", n);
